@@ -426,7 +426,15 @@ def run(R):
     R.check(len(ik) == 1 and q.src(ik[0][1]) == "id(self)", "C13.INSTANCE", nf.qualname + ":key", R.site(nf),
             "the per-instance cache is keyed by id(self)", "the per-instance cache is not keyed by the instance")
     ic = common.assigned_values(nf.node, "instance_cache")
-    R.check(len(ic) == 1 and q.src(ic[0][1]) == "cache[instance_key][1]", "C13.INSTANCE", nf.qualname + ":sub", R.site(nf),
+    entry_vals = [n_.value for n_ in q.scope_nodes(nf.node) if isinstance(n_, ast.Assign) and q.src(n_.targets[0]) == "cache[instance_key]"]
+    fresh_shared = all(isinstance(v_, ast.Tuple) and len(v_.elts) == 2 and q.src(v_.elts[1]) in ("instance_cache", "{}") for v_ in entry_vals)
+
+    def sub_ok(v_):
+        if q.src(v_) == "cache[instance_key][1]":
+            return True
+        # the dict created for a new instance, provided that very dict is what the new entry holds
+        return isinstance(v_, ast.Dict) and not v_.keys and fresh_shared and any(q.src(e.elts[1]) == "instance_cache" for e in entry_vals if isinstance(e, ast.Tuple))
+    R.check(bool(ic) and all(k_ == "expr" and sub_ok(v_) for k_, v_ in ic) and any(q.src(v_) == "cache[instance_key][1]" for k_, v_ in ic), "C13.INSTANCE", nf.qualname + ":sub", R.site(nf),
             "each instance has its own dict", "instances do not get their own dict")
     refs = [c for c in q.calls(nf.node) if q.call_name(c) == "weakref.ref"]
     okw = len(refs) == 1 and q.src(refs[0].args[0]) == "self" and len(refs[0].args) == 2 and q.src(refs[0].args[1]) == "functools.partial(clear_cache, instance_key)"
